@@ -1,0 +1,14 @@
+//go:build verif
+
+package pop3
+
+import "net"
+
+// VerifAddr returns the address the server is bound to (nil before Start has created the
+// listener), so that the verification harness can start it on an ephemeral port.
+func (s *Server) VerifAddr() net.Addr {
+	if s.listener == nil {
+		return nil
+	}
+	return s.listener.Addr()
+}
